@@ -760,6 +760,10 @@ func goCode(root string, unit string) string {
 		header("Model.GoSem", "Model.GoSlices", "Model.GoStrings", "Generated.GoMime")
 		text, errs := translateHook(root)
 		emit("ui/ui.go ((*State).openExternally and the goroutine it starts)", text, errs)
+	case "hex":
+		header("Model.GoSem", "Model.GoBytes", "Generated.GoConfig")
+		text, errs := translateHex(parseFile(root, "config/config.go"))
+		emit("config/config.go (hexToAnsi and parse, on bytes)", text, errs)
 	default:
 		b.WriteString("-- unknown unit " + unit + "\n")
 	}
